@@ -257,6 +257,30 @@ def opDemux (cfg : App.Cfg) (pushes : List Bytes) : String :=
     let evs := c.trace.reverse.map fEv
     " ".intercalate evs
 
+/-- bit `j` of the hexadecimal number `mask` (least significant bit = bit 0) -/
+def maskBit (mask : List Char) (j : Nat) : Bool :=
+  let n := j / 4
+  if n ≥ mask.length then false else
+  let c := mask.getD (mask.length - 1 - n) '0'
+  (hexVal c >>> (j % 4)) &&& 1 == 1
+
+def splitByMask (stream : Bytes) (mask : List Char) : List Bytes :=
+  let n := stream.length / 188
+  let rec go (j start : Nat) (fuel : Nat) (acc : List Bytes) : List Bytes :=
+    match fuel with
+    | 0 => acc.reverse
+    | fuel+1 =>
+      if j ≥ n then (((stream.drop start)) :: acc).reverse
+      else if j + 1 < n && maskBit mask j then
+        go (j+1) ((j+1) * 188) fuel (((stream.drop start).take ((j+1)*188 - start)) :: acc)
+      else go (j+1) start fuel acc
+  go 0 0 (n + 2) []
+
+def opCuts (cfg : App.Cfg) (stream : Bytes) (masks : String) : String :=
+  let whole := opDemux cfg [stream]
+  ",".intercalate ((masks.splitOn ",").map fun m =>
+    if opDemux cfg (splitByMask stream m.toList) == whole then "same" else "diff")
+
 /-! ### dispatcher -/
 def step (line : String) : String :=
   match line.trimAscii.toString.splitOn " " with
@@ -278,6 +302,9 @@ def step (line : String) : String :=
   | ["desc", h] => runS (fDescs (bytesOfHex h))
   | "sec" :: k :: pk => runS (opSec (if k == "s" then Psi.rawSection else Psi.rawCompact) (pk.map bytesOfHex))
   | "pesf" :: pk => runS (opPesf (pk.map bytesOfHex))
+  | ["cuts", c, st, masks] => (match parseCfg c with
+      | some cfg => opCuts cfg (bytesOfHex st) masks
+      | none => "bad-op")
   | "demux" :: c :: pushes => (match parseCfg c with
       | some cfg => opDemux cfg (pushes.map bytesOfHex)
       | none => "bad-op")
